@@ -251,8 +251,24 @@ func (f *Frame) invoke(cc *ssa.CallCommon, recv string, args []string, in ssa.In
 		return []callOut{f.applyContract(c, nil, cc.Signature(), ifaceParamNames(cc), append([]string{recv}, args...), f.reach, f.st, site)}
 	}
 	st := f.st
+	if externalIface(cc.Value.Type()) {
+		e.note("method %s of the external interface %s: result havocked, assumed not to modify interpreter state", cc.Method.Name(), cc.Value.Type())
+		return []callOut{{f.reach, f.symbolicResults(cc.Signature(), st, f.reach, "inv"), st}}
+	}
 	e.fullHavoc(st, fmt.Sprintf("interface call %s.%s without contract (%s)", cc.Value.Type(), cc.Method.Name(), f.fn.Name()))
 	return []callOut{{f.reach, f.symbolicResults(cc.Signature(), st, f.reach, "inv"), st}}
+}
+
+// externalIface: interface types declared outside the module (error, fmt.Stringer, io.Reader, …).
+func externalIface(t types.Type) bool {
+	named, ok := t.(*types.Named)
+	if !ok {
+		return false
+	}
+	if named.Obj().Pkg() == nil {
+		return true // universe: error
+	}
+	return !strings.HasPrefix(named.Obj().Pkg().Path(), modulePath)
 }
 
 func ifaceParamNames(cc *ssa.CallCommon) []string {
